@@ -6,7 +6,8 @@ open DS
 
 def ebppsVariant : Ebpps.Variant :=
   { geDraw := DSGen.ebpps_geDraw, mergeSetsWtMax := DSGen.ebpps_mergeSetsWtMax,
-    mergeEmptyShrinks := DSGen.ebpps_mergeEmptyShrinks, maxK := DSGen.ebpps_MAX_K }
+    mergeEmptyShrinks := DSGen.ebpps_mergeEmptyShrinks,
+    clampTheta := DSGen.ebpps_clampTheta, vanishFix := DSGen.ebpps_vanishFix, maxK := DSGen.ebpps_MAX_K }
 
 def main (args : List String) : IO UInt32 := do
   match args with
